@@ -53,7 +53,7 @@ unsafe fn free_quarantined(q: &[(usize, usize, usize)]) {
 // program language
 
 pub const OP_NAMES: [&str; 13] = [
-    "clone via &Bytes", "clone own", "read+compare", "slice(1..)", "drop one", "try_into_mut (+write if Ok)", "Vec::from (+write if zero-copy)", "BytesMut::from (+write if zero-copy)",
+    "clone via &Bytes", "clone own", "read+compare", "slice(1..)", "drop one", "try_into_mut (+write if Ok)", "Vec::from (Bytes or BytesMut; +write if zero-copy)", "BytesMut::from (+write if zero-copy)",
     "reserve(n) on BytesMut half (+fill spare)", "try_reclaim(n) on BytesMut half (+fill spare)", "truncate(1)", "unsplit(halves)/freeze", "is_unique()",
 ];
 pub const HANDLE_NAMES: [&str; 5] = ["own clone", "&Bytes to main's handle", "BytesMut tail half", "frozen tail half", "the base handle itself (moved)"];
@@ -135,8 +135,19 @@ fn check_read(b: &[u8], expect: &[u8], who: usize, what: &str) {
     if !b.is_empty() {
         rt::touch_read(b.as_ptr() as usize);
     }
-    if b != expect {
-        rt::report("C05", "wrong-bytes-read", format!("thread {} {}: read {:02x?}, expected {:02x?}", who, what, &b[..b.len().min(12)], &expect[..expect.len().min(12)]));
+    wrong_bytes(who, &format!("{}: read", what), b, expect);
+}
+
+/// wrong contents are C05's "each thread reads the correct bytes"; when every wrong byte is the quarantine's poison value the bytes were
+/// read out of a block that had already been freed, which is C06's "every read happens-before the deallocation" as well
+fn wrong_bytes(who: usize, what: &str, got: &[u8], expect: &[u8]) {
+    if got == expect {
+        return;
+    }
+    rt::report("C05", "wrong-bytes-read", format!("thread {} {} {:02x?}, expected {:02x?}", who, what, &got[..got.len().min(12)], &expect[..expect.len().min(12)]));
+    let wrong: Vec<u8> = got.iter().zip(expect.iter()).filter(|(g, e)| g != e).map(|(g, _)| *g).collect();
+    if !wrong.is_empty() && wrong.iter().all(|&g| g == 0xDD) && got.len() == expect.len() {
+        rt::report("C06", "read-of-freed-memory", format!("thread {} {} {:02x?}: every wrong byte is the poison value written when the block was freed, so the read came after the deallocation", who, what, &got[..got.len().min(12)]));
     }
 }
 
@@ -231,6 +242,26 @@ fn run_op(l: &mut Local, op: u8) {
                 drop_handle(h);
             }
         }
+        6 if matches!(l.hs.last(), Some(H::M(..))) => {
+            // Into<Vec<u8>> of a BytesMut half: zero-copy when it is alone on the buffer, otherwise a copy that must be complete
+            // before this handle's reference is given up
+            if let Some(H::M(m, e)) = l.hs.pop() {
+                let p = m.as_ptr() as usize;
+                let len = m.len();
+                rt::exclusive_attempt();
+                unreg(p);
+                let blk = rt::block_info(p);
+                let mut v = rt::bracket(|| Vec::from(m));
+                wrong_bytes(who, "Vec::from(BytesMut) returned", &v, &e);
+                if let Some((base, size, _)) = blk {
+                    let vp = v.as_ptr() as usize;
+                    if len > 0 && vp >= base && vp < base + size {
+                        exclusive_write(vp, &mut v[..], "Vec::from(BytesMut)", 0);
+                    }
+                }
+                rt::bracket(move || drop(v));
+            }
+        }
         5 | 6 | 7 => {
             if !matches!(l.hs.last(), Some(H::B(..))) {
                 return;
@@ -259,10 +290,7 @@ fn run_op(l: &mut Local, op: u8) {
                     6 => {
                         let blk = rt::block_info(p);
                         let mut v = rt::bracket(|| Vec::from(b));
-                        if v[..] != e[..] {
-                            // checked before any write
-                            rt::report("C05", "wrong-bytes-read", format!("thread {}: Vec::from returned {:02x?}, expected {:02x?}", who, &v[..v.len().min(12)], &e[..e.len().min(12)]));
-                        }
+                        wrong_bytes(who, "Vec::from returned", &v, &e); // checked before any write
                         if let Some((base, size, _)) = blk {
                             let vp = v.as_ptr() as usize;
                             if len > 0 && vp >= base && vp < base + size {
@@ -274,9 +302,7 @@ fn run_op(l: &mut Local, op: u8) {
                     _ => {
                         let mut m = rt::bracket(|| BytesMut::from(b));
                         let mut e = e;
-                        if m[..] != e[..] {
-                            rt::report("C05", "wrong-bytes-read", format!("thread {}: BytesMut::from holds {:02x?}, expected {:02x?}", who, &m[..m.len().min(12)], &e[..e.len().min(12)]));
-                        }
+                        wrong_bytes(who, "BytesMut::from holds", &m, &e);
                         if len > 0 && m.as_ptr() as usize == p {
                             exclusive_write(p, &mut m[..], "BytesMut::from", 0);
                             e.iter_mut().for_each(|x| *x ^= 0xFF);
